@@ -360,6 +360,17 @@ func runC13v4(c *sim.Ctx, clock bool) {
 		insts[i] = &inst{dg: -3}
 	}
 	c.Ev("plan", int64(nkeys), int64(len(dgs)), int64(len(evs)), b2i(hostileRun))
+	var ring, ringCopy []byte
+	if !manyFrags && c.Chance(300) {
+		ring = make([]byte, 0, 1<<18)
+		c.Fault("fragments_share_a_capture_buffer")
+	}
+	ringCheck := func() {
+		if ring != nil && !bytes.Equal(ring, ringCopy) {
+			c.Fail("safety", "fragment-memory-written", "DefragIPv4", "the capture buffer the fragments were decoded in was written to by the defragmenter")
+		}
+	}
+	defer ringCheck()
 	var last int64
 	for _, e := range evs {
 		if e.at > last {
@@ -389,6 +400,19 @@ func runC13v4(c *sim.Ctx, clock bool) {
 		}
 		f := e.f
 		ip := ip4Layer(f, f.key, keyID(f.key))
+		if ring != nil {
+			// the fragments' payloads lie one behind the other in a capture
+			// buffer, in the order of arrival, each a slice with the rest of the
+			// buffer as spare capacity (decoded in place, as with NoCopy)
+			if len(ring)+len(f.payload) > cap(ring) {
+				ring = make([]byte, 0, cap(ring))
+				ringCopy = ringCopy[:0]
+			}
+			at := len(ring)
+			ring = append(ring, f.payload...)
+			ringCopy = append(ringCopy, f.payload...)
+			ip.Payload = ring[at:len(ring)]
+		}
 		c.Ev("frag", int64(f.key), int64(f.dg), int64(f.off), int64(len(f.payload)), b2i(f.more), int64(f.ihl), b2i(f.whole), e.at)
 		var out *layers.IPv4
 		var err error
